@@ -4,7 +4,7 @@ workloads + (where a model prediction exists) kernel-evaluated comparison with t
 import collections, json, os, re
 from . import common as C
 
-FAMILIES = {"C01": ["conc", "closures"], "C02": ["nest", "closures"], "C09": ["values"], "C10": ["errors"], "C11": ["closures"],
+FAMILIES = {"C14": ["hub", "errors"], "C01": ["conc", "closures"], "C02": ["nest", "closures"], "C09": ["values"], "C10": ["errors"], "C11": ["closures"],
             "C13": ["hub"], "C17": ["wire"]}
 
 
@@ -183,6 +183,25 @@ def mon_c11(rec):
     return out
 
 
+def mon_hooks(rec):
+    """C14 on black-box workloads: balanced notifications per remote id, atomic with the enumeration"""
+    out = []
+    per = collections.defaultdict(list)
+    for e in rec.get("events") or []:
+        if e["kind"] == "hook":
+            per[(e["node"], e.get("remote"))].append(e["m"])
+        if e["kind"] == "probe":
+            if e["m"] == "disconnect" and e.get("data") == "false":
+                out.append("during the disconnect notification of %s on %s a concurrent enumeration completed and no longer showed the remote, although the per-link disconnect had not been announced" % (e.get("remote"), e["node"]))
+            if e["m"] == "connect" and e.get("data") == "true":
+                out.append("during the connect notification of %s on %s a concurrent enumeration completed and already showed the remote, although the per-link connect had not been announced" % (e.get("remote"), e["node"]))
+    for (node, rid), ms in per.items():
+        want = ["connect", "link-connect", "disconnect", "link-disconnect"]
+        if ms != want[:len(ms)] or len(ms) % 2 != 0:
+            out.append("node %s remote %s: notifications %s are not connect(registry), connect(link), disconnect(registry), disconnect(link)" % (node, rid, ms))
+    return out
+
+
 def mon_c13(rec):
     out = []
     if rec.get("hang"):
@@ -336,7 +355,7 @@ def mon_c17(rec):
     return out
 
 
-MONITORS = {"C01": mon_c01, "C02": mon_c02, "C09": mon_c09, "C10": mon_c10, "C11": mon_c11, "C13": mon_c13, "C17": mon_c17}
+MONITORS = {"C14": mon_hooks, "C01": mon_c01, "C02": mon_c02, "C09": mon_c09, "C10": mon_c10, "C11": mon_c11, "C13": mon_c13, "C17": mon_c17}
 
 
 def transcript(rec):
